@@ -21,17 +21,38 @@ def toRefC : Crates.Req → Option Comparator
   | .any => none
   | .wildcardMajor m => some ⟨.wildcard, m, none, none, []⟩
   | .wildcardMinor m n => some ⟨.wildcard, m, some n, none, []⟩
+  | .anchored r _ => toRefC r
 
 def reqBuildFree : Crates.Req → Bool
   | .caret v | .tilde v | .exact v | .gte v | .gt v | .lte v | .lt v => v.build.isEmpty
+  | .anchored r _ => reqBuildFree r
   | _ => true
 
 def reqsRef (rs : List Crates.Req) : List Comparator := rs.filterMap toRefC
 
+/-- the floor `M.m.0-0` as a full comparator operand -/
+def floorC (op : CargoReq.Op) (M m : Nat) : Comparator := ⟨op, M, some m, some 0, ['0']⟩
+
+/-- comparators with a partial operand, written as the comparator the code builds for them -/
+def normC (c : Comparator) : Comparator :=
+  match c.op, c.minor, c.patch with
+  | .exact, none, none | .tilde, none, none | .wildcard, none, none | .caret, none, none => ⟨.wildcard, c.major, none, none, []⟩
+  | .exact, some m, none | .tilde, some m, none | .wildcard, some m, none => ⟨.wildcard, c.major, some m, none, []⟩
+  | .caret, some m, none => if c.major > 0 then floorC .caret c.major m else ⟨.wildcard, c.major, some m, none, []⟩
+  | .greaterEq, none, none => floorC .greaterEq c.major 0
+  | .greaterEq, some m, none => floorC .greaterEq c.major m
+  | .greater, none, none => floorC .greaterEq (c.major + 1) 0
+  | .greater, some m, none => floorC .greaterEq c.major (m + 1)
+  | .lessEq, none, none => floorC .less (c.major + 1) 0
+  | .lessEq, some m, none => floorC .less c.major (m + 1)
+  | .less, none, none => floorC .less c.major 0
+  | .less, some m, none => floorC .less c.major m
+  | _, _, _ => c
+
 /-- do the code's parser and the reference parser read `spec` as the same requirement? -/
 def sameReadingCrates (spec : Text) : String :=
   match Crates.parseSpec spec, CargoReq.parse spec with
-  | some s, some r => if reqsRef s == r then "same" else "diff"
+  | some s, some r => if reqsRef s == r.map normC then "same" else "diff"
   | none, none => "bothinvalid"
   | some _, none => "code-only"
   | none, some _ => "ref-only"
